@@ -78,7 +78,7 @@ def selftest():
 
 
 def strategy(tier):
-    return tc.tide_case_strategy(tier, kinds=('single', 'dual'), array_fraction=2, finding_weight=0.25)
+    return tc.tide_case_strategy(tier, kinds=('single', 'dual'), array_fraction=2, finding_weight=0.25, routes=True)
 
 
 def fixed_cases(tier):
@@ -91,12 +91,25 @@ def fixed_cases(tier):
         out.append(_base_case(kind=kind, pt={'e': 0.1, 'spin_ratio': [1.5, -1.0]}, body={'sync': False}, trunc=6, l_max=3))
         out.append(_base_case(kind=kind, pt={'e': 0.3, 'spin_ratio': [0.3, 2.5], 'obl': [0.5, 0.2]},
                               body={'sync': False, 'use_obl': True}, trunc=10))
+    # input routes: one world's spin as a frequency, the other's as a period (mixed tuples), explicit (None, None), periods,
+    # the *_from_dict_or_world_instance entry points
+    for routes in ({'orbit': 'frequency', 'spin': ['frequency', 'period'], 'none_tuple': False, 'entry': 'quick'},
+                   {'orbit': 'period', 'spin': ['period', 'frequency'], 'none_tuple': False, 'entry': 'from_dict'},
+                   {'orbit': 'period', 'spin': ['period', 'period'], 'none_tuple': True, 'entry': 'quick'},
+                   {'orbit': 'frequency', 'spin': ['frequency', 'frequency'], 'none_tuple': True, 'entry': 'from_dict'}):
+        for kind in ('single', 'dual'):
+            out.append(_base_case(kind=kind, pt={'e': 0.12, 'spin_ratio': [1.7, -0.6]}, body={'sync': False}, trunc=6,
+                                  routes=routes))
+    out.append(_base_case(kind='dual', pt={'e': 0.05}, trunc=4,
+                          routes={'orbit': 'period', 'spin': ['period', 'period'], 'none_tuple': True, 'entry': 'quick'}))
     return out
 
 
 def required_labels(tier):
     return ['kind:single', 'kind:dual', 'e:zero', 'e:pos', 'e:none', 'scalar', 'array', 'momentum:checked', 'momentum:oblique',
-            'spin:sync', 'spin:nonsync', 'spin:retrograde'] + ['rheo:' + r for r in tc.DISSIPATIVE]
+            'spin:sync', 'spin:nonsync', 'spin:retrograde', 'entry:quick', 'entry:from_dict', 'orbit:period',
+            'orbit:frequency', 'spinroute:period', 'spinroute:frequency', 'spinroute:mixed', 'route:noncanonical',
+            'route:canonical'] + ['rheo:' + r for r in tc.DISSIPATIVE]
 
 
 def in_domain(case):
@@ -107,18 +120,33 @@ def _full(v, k):
     return np.asarray(v, dtype=float) * np.ones(k)
 
 
-def _call(su, j=None):
-    """-> dict(da, de, bodies=[dict(heating, dspin, dUdM, dUdw, dUdO)]) as arrays (j=None) or for element j."""
-    from TidalPy.toolbox.quick_tides import quick_dual_body_tidal_dissipation, quick_tidal_dissipation
+def _call(su, j=None, canonical=False):
+    """-> dict(da, de, bodies=[dict(heating, dspin, dUdM, dUdw, dUdO)], fn, mutated) as arrays (j=None) or for element j.
+    canonical=False: the case's input routes (frequency | period per quantity, None vs (None, None) tuples, quick_* or
+    *_from_dict_or_world_instance entry point); canonical=True: quick_* with every quantity as a frequency."""
+    from TidalPy.toolbox import quick_tides as qt
     k = su.k if j is None else 1
+    from_dict = su.entry == 'from_dict' and not canonical
     if su.dual:
-        res = tc.call_repo('quick_dual_body_tidal_dissipation', quick_dual_body_tidal_dissipation, **tc.dual_kwargs(su, j))
+        kw = tc.dual_kwargs(su, j, canonical=canonical)
+        if from_dict:
+            name, fn, kw = 'dual_dissipation_from_dict_or_world_instance', qt.dual_dissipation_from_dict_or_world_instance, \
+                tc.dual_from_dict_kwargs(kw)
+        else:
+            name, fn = 'quick_dual_body_tidal_dissipation', qt.quick_dual_body_tidal_dissipation
+        res = tc.call_repo(name, fn, **kw)
         per = [res['host'], res['secondary']]
     else:
-        res = tc.call_repo('quick_tidal_dissipation', quick_tidal_dissipation,
-                           **tc.single_kwargs(su, su.bodies[0], j, derivatives=True))
+        kw = tc.single_kwargs(su, su.bodies[0], j, derivatives=True, canonical=canonical)
+        if from_dict:
+            name, fn, kw = 'single_dissipation_from_dict_or_world_instance', qt.single_dissipation_from_dict_or_world_instance, \
+                tc.single_from_dict_kwargs(kw)
+        else:
+            name, fn = 'quick_tidal_dissipation', qt.quick_tidal_dissipation
+        res = tc.call_repo(name, fn, **kw)
         per = [res]
-    out = {'da': _full(res['semi_major_axis_derivative'], k), 'de': _full(res['eccentricity_derivative'], k), 'bodies': []}
+    out = {'da': _full(res['semi_major_axis_derivative'], k), 'de': _full(res['eccentricity_derivative'], k), 'bodies': [],
+           'fn': name, 'mutated': list(tc.LAST_MUTATION)}
     for r in per:
         out['bodies'].append({'heating': _full(r['tidal_heating'], k), 'dspin': _full(r['spin_rate_derivative'], k),
                               'dUdM': _full(r['dUdM'], k), 'dUdw': _full(r['dUdw'], k), 'dUdO': _full(r['dUdO'], k)})
@@ -160,8 +188,16 @@ def _evaluate(case):
         raise
     if tc.TRANSIENT_RETRIES['count'] != retries0:
         c.label('numba_transient_retry')
-    ctx = '%s l_max=%d trunc=%d rheologies=%r e=%r n=%r spins=%r obliquities=%r as_array=%r e_none=%r' % (
-        case['kind'], su.l_max, su.trunc, [b.rheology for b in bodies], su.e.tolist(), su.n.tolist(),
+    c.label('entry:' + su.entry, 'orbit:' + ('period' if su.P_orb is not None else 'frequency'))
+    for b in bodies:
+        if not b.sync:
+            c.label('spinroute:' + ('period' if b.P_spin is not None else 'frequency'))
+    if dual and sum(b.P_spin is not None for b in bodies) == 1 and sum(not b.sync for b in bodies) == 2:
+        c.label('spinroute:mixed')
+    c.check(not out['mutated'], {'clause': 'inputs_not_mutated', 'fn': out['fn']},
+            '%s modified its arguments in place: %s' % (out['fn'], out['mutated'][:6]))
+    ctx = '%s routes=%r l_max=%d trunc=%d rheologies=%r e=%r n=%r spins=%r obliquities=%r as_array=%r e_none=%r' % (
+        case['kind'], su.routes, su.l_max, su.trunc, [b.rheology for b in bodies], su.e.tolist(), su.n.tolist(),
         ['None' if b.sync else b.spin.tolist() for b in bodies], [None if b.obl is None else b.obl.tolist() for b in bodies],
         su.as_array, su.e_none)
     da, de = out['da'], out['de']
@@ -211,14 +247,43 @@ def _evaluate(case):
                 '%s: dL_orb/dt = %r (da) + %r (de)  C dOmega/dt=%r  residual=%r tol=%r' % (ctx, l_a, l_e, l_s, resid, tol))
     else:
         c.label('momentum:oblique')
+    # ---- per-mode scales of the rates (rounding floor of the comparisons below) -------------------------------------
+    beta_inv = Mt / (m1 * m2)
+    s_dM = beta_inv * sum(b.host_mass * ms.s_dUdM for b, ms in zip(bodies, sums))
+    s_dw = beta_inv * sum(b.host_mass * ms.s_dUdw for b, ms in zip(bodies, sums))
+    with np.errstate(all='ignore'):
+        sc_da = 2.0 / (n * a) * s_dM
+        sc_de = np.where(e > 0, np.sqrt(1 - e * e) / (n * a * a * np.where(e > 0, e, 1.0)) * (s_dM + s_dw), 0.0)
+
+    def compare(clause, other, j_main, j_other, what):
+        pairs = [('da_dt', da[j_main], other['da'][j_other], sc_da[j_main]), ('de_dt', de[j_main], other['de'][j_other], sc_de[j_main])]
+        for i, (b, ms) in enumerate(zip(bodies, sums)):
+            pairs.append(('dspin_dt[%d]' % i, out['bodies'][i]['dspin'][j_main], other['bodies'][i]['dspin'][j_other],
+                          b.host_mass / b.moi * ms.s_dUdO[j_main]))
+            pairs.append(('heating[%d]' % i, out['bodies'][i]['heating'][j_main], other['bodies'][i]['heating'][j_other],
+                          ms.s_heating[j_main]))
+        for name, va, vs, sc in pairs:
+            ok = (va == vs) or abs(va - vs) <= ARRAY_TOL * (max(abs(va), abs(vs)) + sc)
+            c.check(bool(ok), {'clause': clause, 'what': name.split('[')[0]},
+                    '%s: element %d %s: %s: %r vs %r (per-mode scale %r)' % (ctx, j_main, name, what, va, vs, sc))
+
+    # ---- input routes: the same state through every route gives the canonical (all-frequency, quick_*) rates ----------
+    if tc.has_routes(su):
+        c.label('route:noncanonical')
+        try:
+            canon = _call(su, canonical=True)
+        except RepoRaised as ex:
+            if any(tc.known_exception_class(b, ms, ex.exc) for b, ms in zip(bodies, sums)):
+                return discard('excluded_known_finding', lab)
+            raise
+        c.check(not canon['mutated'], {'clause': 'inputs_not_mutated', 'fn': canon['fn']},
+                '%s: %s modified its arguments in place: %s' % (ctx, canon['fn'], canon['mutated'][:6]))
+        for j in range(k):
+            compare('route', canon, j, j, 'routes %r via %s vs canonical frequency route' % (su.routes, out['fn']))
+    else:
+        c.label('route:canonical')
     # ---- array call vs scalar calls -------------------------------------------------------------------------
     if su.as_array:
-        beta_inv = Mt / (m1 * m2)
-        s_dM = beta_inv * sum(b.host_mass * ms.s_dUdM for b, ms in zip(bodies, sums))
-        s_dw = beta_inv * sum(b.host_mass * ms.s_dUdw for b, ms in zip(bodies, sums))
-        with np.errstate(all='ignore'):
-            sc_da = 2.0 / (n * a) * s_dM
-            sc_de = np.where(e > 0, np.sqrt(1 - e * e) / (n * a * a * np.where(e > 0, e, 1.0)) * (s_dM + s_dw), 0.0)
         for j in range(k):
             try:
                 one = _call(su, j)
@@ -226,15 +291,7 @@ def _evaluate(case):
                 if any(tc.known_exception_class(b, ms, ex.exc) for b, ms in zip(bodies, sums)):
                     return discard('excluded_known_finding', lab)
                 raise
-            pairs = [('da_dt', da[j], one['da'][0], sc_da[j]), ('de_dt', de[j], one['de'][0], sc_de[j])]
-            for i, (b, ms) in enumerate(zip(bodies, sums)):
-                pairs.append(('dspin_dt[%d]' % i, out['bodies'][i]['dspin'][j], one['bodies'][i]['dspin'][0],
-                              b.host_mass / b.moi * ms.s_dUdO[j]))
-                pairs.append(('heating[%d]' % i, out['bodies'][i]['heating'][j], one['bodies'][i]['heating'][0], ms.s_heating[j]))
-            for name, va, vs, sc in pairs:
-                ok = (va == vs) or abs(va - vs) <= ARRAY_TOL * (max(abs(va), abs(vs)) + sc)
-                c.check(bool(ok), {'clause': 'array', 'what': name.split('[')[0]},
-                        '%s: element %d %s: array call %r, scalar call %r (per-mode scale %r)' % (ctx, j, name, va, vs, sc))
+            compare('array', one, j, 0, 'array call vs scalar call')
     return c.result()
 
 
